@@ -191,6 +191,3 @@ func stubXORBytes(e *Engine, c *callCtx) bool {
 	c.set(e.goInt(int64(n)))
 	return true
 }
-
-func registerCryptoStubs() {
-}
